@@ -66,4 +66,25 @@ TEXT.update({
     },
 })
 
+TEXT.update({
+    "C09": {
+        "level_text": "Held on every monitored SM9 sign/verify: exact (h,S) equality with an independent pairing-based signer (incl. the Annex example), acceptance both ways, and the forged-signature space of sample signatures (all bit flips, boundary h incl. N-1, N, 2^256-1, off-curve/infinite S) rejected with Err and never a panic.",
+        "design_ref": "DESIGN.md section 6 C09",
+        "level_note": "Trusted: textbook SM9 reference (Annex-anchored), RNG hook.",
+        "technique": "runtime differential monitor with RNG-hook r injection + fault injection on (h,S)",
+    },
+    "C10": {
+        "level_text": "Held on every monitored SM9 encrypt/decrypt for all message lengths 1..=255: exact ciphertext equality with the reference (incl. the Annex example), interop both ways, and tamper evidence over all bit flips/truncations plus crafted invalid C1 with valid tags.",
+        "design_ref": "DESIGN.md section 6 C10",
+        "level_note": "Trusted: textbook SM9 reference; crafted tags use the library's own pairing wrapper (hook) on the invalid input.",
+        "technique": "runtime differential monitor with RNG-hook r injection + ciphertext fault injection",
+    },
+    "C17": {
+        "level_text": "Held on every monitored key-exchange history: all exchanged values and both derived keys equal the reference's GM/T 0044.3 values (incl. the Annex example), off-curve R rejected, tampered R makes the keys differ.",
+        "design_ref": "DESIGN.md section 6 C17",
+        "level_note": "Trusted: textbook SM9 reference; RNG hook.",
+        "technique": "runtime history monitor of the 3-step protocol against a reference run, with in-transit tampering",
+    },
+})
+
 NOT_APPLICABLE = []
